@@ -13,32 +13,37 @@ theorem cy_param {code defs entry nf n} (hfun : FuncsOK code defs entry nf) (ihn
   have h0 : code[p]? = some (.load (scopeOf entry g) 1) := by have := hseg 0 (by simp); simpa using this
   have h1 : code[p+1]? = some .callpc := by have := hseg 1 (by simp); simpa using this
   simp only [List.length_cons, List.length_nil]
-  cases ρ with
+  obtain ⟨ρc, ρv⟩ := ρ
+  obtain ⟨henvc, _⟩ := henv
+  simp only [] at henvc hpar
+  cases ρc with
   | none => exact absurd rfl (hpar (by simp [Q.HasParam]))
   | mk h q' ρ' =>
-    obtain ⟨f, dg, pcL, d', fd, hr, hp, _, hdd, hfd, hfid, hl, hcl', hpar', hrec⟩ := EnvRel.inv_mk henv
+    obtain ⟨f, dg, pcL, d', fd, hr, hp, _, hdd, hfd, hfid, hl, hcl', hpar', hrec⟩ := EnvRel.inv_mk henvc
     simp only [eval] at hnd ⊢
     obtain ⟨l0, l1, l2, l3⟩ := hl
-    let lq := (compile entry h pcL (pcL+1) q').length
+    have hr' : resolve (scopeOf entry g) fr (fr.length - 1) = some (f, dg) := hr
+    let lq := (compile entry ⟨h, []⟩ pcL (pcL+1) q').length
     let lam : Frame := ⟨pcL, p+1, o, F.length, some d'⟩
     have hdg := resolve_lt _ _ _ _ _ hr
     have hfne : fd.id ≠ pcL := by omega
     have start : Steps code (.run p (.v v :: S) F false none R fr o cp)
         (.run (pcL + 1) (.v v :: S) F false none R (lam :: fr) (o + (lq + 1)) (p+1, some d')) := by
       refine .head (c' := .run (p+1) (.clo pcL d' :: .v v :: S) F false none R fr o cp)
-        (by simp [step, h0, hr, hp]) ?_
+        (by simp [step, h0, hr', hp]) ?_
       refine .head (c' := .run pcL (.v v :: S) F false none R fr o (p+1, some d')) (by simp [step, h1]) ?_
       refine Steps.one ?_
       rw [step_scope l0 rfl hfd, if_neg hfne]
     have henv' : EnvRel code entry nf P R (lam :: fr) ((lam :: fr).length - 1) ρ' h := by
       have := hrec.lam lam (by omega) (by simp only [lam]; omega) rfl
       simpa using this
-    have yb := ihn q' h pcL (pcL+1) (by omega) l1 hcl' ρ' v S F R (lam :: fr) (o + (lq + 1)) (p+1, some d') P
-      ⟨lam, fr, rfl, rfl⟩ (by omega) hpar' (fun a ha => by have := hP a ha; simp only [lam, base]; omega) henv'
+    have yb := ihn q' ⟨h, []⟩ pcL (pcL+1) (by omega) l1 hcl' ⟨ρ', []⟩ v S F R (lam :: fr) (o + (lq + 1)) (p+1, some d') P
+      ⟨lam, fr, rfl, rfl⟩ (by simp only [scopeOf]; omega) hpar' (fun a ha => by have := hP a ha; simp only [lam, base]; omega)
+      ⟨henv', fun x r hx => by simp [lookup] at hx⟩
       (by simp only [lam, base, lq]; omega) hnd
     have yb' : Yields code (Own o pcL (pcL + 1) lq) P (o + (lq + 1)) (lam :: fr) F (pcL + 1 + lq) S
         (.run (pcL + 1) (.v v :: S) F false none R (lam :: fr) (o + (lq + 1)) (p+1, some d'))
-        (eval defs n h ρ' q' v).outs (eval defs n h ρ' q' v).stop.toErr := yb
+        (eval defs n ⟨h, []⟩ ⟨ρ', []⟩ q' v).outs (eval defs n ⟨h, []⟩ ⟨ρ', []⟩ q' v).stop.toErr := yb
     have yc := call_of_body (o := o) (fm := lam) (n := lq + 1) (Ob := Own o pcL (pcL + 1) lq) (P := P) (P' := P) htop.ne_nil rfl rfl
       (by intro a h; obtain ⟨j, j1, j2, j3⟩ := h; omega) (fun a h => Or.inl h) l2 yb'
     exact Yields.steps_left start EqOff.refl (yc.mono (fun _ h => h.elim) (fun a h => Or.inr (Or.inl h)) (Nat.le_refl _))
@@ -53,7 +58,7 @@ theorem cy_call1 {code defs entry nf n} (hfun : FuncsOK code defs entry nf) (ihn
   obtain ⟨ft, hres, hbase, hftop, hftid⟩ := htop.resolve
   have hne := htop.ne_nil
   have htd := topDepth_of_ne_nil hne
-  generalize hca : compile entry g (p+2) (p+3) a = ca at hseg hoff ⊢
+  generalize hca : compile entry ⟨g.fn, []⟩ (p+2) (p+3) a = ca at hseg hoff ⊢
   have c0 : code[p]? = some (.store e (p - e)) := by have := hseg 0 (by simp); simpa using this
   have c1 : code[p+1]? = some (.jump (p + 4 + ca.length)) := by have := hseg 1 (by simp); simpa using this
   have c2 : code[p+2]? = some (.scope (p+2) (ca.length + 1) 0) := by have := hseg 2 (by simp); simpa using this
@@ -72,14 +77,14 @@ theorem cy_call1 {code defs entry nf n} (hfun : FuncsOK code defs entry nf) (ihn
       [Instr.ret, .pushpc (p+2), .load e (p - e), .call (entry f)]).length = 3 + ca.length + 4 := by
     simp; omega
   rw [hlen] at hoff ⊢
-  have hlam : LamAt code entry (p+2) g a := by
-    refine ⟨?_, ?_, ?_, by omega⟩
+  have hlam : LamAt code entry (p+2) g.fn a := by
+    refine ⟨?_, ?_, ?_, by simp only [scopeOf] at hge; omega⟩
     · rw [hca]; exact c2
     · rw [hca]; exact hsa
     · rw [hca]; have : p + 2 + 1 + ca.length = p + 3 + ca.length := by omega
       rw [this]; exact t0
   simp only [eval] at hnd ⊢
-  let lb := (compile entry (some f) (entry f) (entry f + 4) (defs f)).length
+  let lb := (compile entry ⟨some f, []⟩ (entry f) (entry f + 4) (defs f)).length
   let r := ft.base + (p - e)
   let R0 := R.set r (.v v)
   let R1 := R0.set o (.v v)
@@ -118,16 +123,17 @@ theorem cy_call1 {code defs entry nf n} (hfun : FuncsOK code defs entry nf) (ihn
     have h2 : x ≠ o := by omega
     have h3 : x ≠ o + 1 := by omega
     simp [R2, R1, R0, Regs.set, h1, h2, h3]
-  have henv' : EnvRel code entry nf P' R2 (cal :: fr) ((cal :: fr).length - 1) (.mk g a ρ) (some f) := by
-    have hres' : resolve (scopeOf entry (some f)) (cal :: fr) fr.length = some (cal, fr.length) := by
-      simp [resolve, cal, scopeOf]
+  have henv' : EnvRel code entry nf P' R2 (cal :: fr) ((cal :: fr).length - 1) (.mk g.fn a ρ.clo) (some f) := by
+    have hres' : resolve (scopeOfFn entry (some f)) (cal :: fr) fr.length = some (cal, fr.length) := by
+      simp [resolve, cal, scopeOfFn]
     have hfa : frameAt (cal :: fr) (fr.length - 1) = some ft := by
       rw [frameAt_push _ _ _ (by omega)]; exact hftop
     have := EnvRel.mk (code := code) (entry := entry) (nf := nf) (P := P') (R := R2) hres'
       (by simp [cal, R2, Regs.set]) (Or.inr (by simp [cal])) (by omega)
-      hfa (by omega) hlam hcla hpar (((henv.congr hRR2).monoP (fun x hx => Or.inl hx)).push cal (by omega))
+      hfa (by omega) hlam hcla hpar (((henv.1.congr hRR2).monoP (fun x hx => Or.inl hx)).push cal (by omega))
     simpa using this
-  have yb := ihn (defs f) (some f) (entry f) (entry f + 4) (by omega) (hfun.body f hf) (hfun.closed f hf) (.mk g a ρ) v S F R2
+  have yb := ihn (defs f) ⟨some f, []⟩ (entry f) (entry f + 4) (by omega) (hfun.body f hf) (hfun.closed f hf)
+    ⟨.mk g.fn a ρ.clo, []⟩ v S F R2
     (cal :: fr) (o + (lb + 4)) (p + 3 + ca.length + 3, some (fr.length - 1)) P'
     ⟨cal, fr, rfl, rfl⟩ (Nat.le_refl _) (fun _ => by simp)
     (fun x hx => by
@@ -135,10 +141,11 @@ theorem cy_call1 {code defs entry nf n} (hfun : FuncsOK code defs entry nf) (ihn
       rcases hx with hx | hx
       · have := hP x hx; omega
       · omega)
-    henv' (by simp only [cal, base, lb]; omega) hnd
+    ⟨henv', fun x r hx => by simp [lookup] at hx⟩ (by simp only [cal, base, lb]; omega) hnd
   have yb' : Yields code (Own o (entry f) (entry f + 4) lb) P' (o + (lb + 4)) (cal :: fr) F (entry f + 4 + lb) S
       (.run (entry f + 4) (.v v :: S) F false none R2 (cal :: fr) (o + (lb + 4)) (p + 3 + ca.length + 3, some (fr.length - 1)))
-      (eval defs n (some f) (.mk g a ρ) (defs f) v).outs (eval defs n (some f) (.mk g a ρ) (defs f) v).stop.toErr := yb
+      (eval defs n ⟨some f, []⟩ ⟨.mk g.fn a ρ.clo, []⟩ (defs f) v).outs
+      (eval defs n ⟨some f, []⟩ ⟨.mk g.fn a ρ.clo, []⟩ (defs f) v).stop.toErr := yb
   have yc := call_of_body (o := o) (fm := cal) (n := lb + 4) (Ob := Own o (entry f) (entry f + 4) lb) (P := P) (P' := P') hne rfl rfl
     (by intro a h; obtain ⟨j, j1, j2, j3⟩ := h; omega)
     (by intro x hx; rcases hx with hx | hx
